@@ -26,7 +26,8 @@ Inductive liberr :=
   | ExprBadMath (cause : option pyexn)    (* "... bad math operation (op): ..." wrapper of eval_new / exact_eval;
                                              None = the wrapped exception was itself a FlipJumpExprException *)
   | ExprCantEvaluateLabel (s : string)    (* exact_eval: label not in the dictionary *)
-  | ParseCantEvaluate.                    (* `x = expr` with unresolved names: syntax error *)
+  | ParseCantEvaluate                     (* `x = expr` with unresolved names: syntax error *)
+  | LexLiteralTooLong.                    (* FJLexer._decimal_value: lexing error, reported as FlipJumpParsingException *)
 
 Inductive outcome (A : Type) :=
   | Ok (a : A)
@@ -365,6 +366,12 @@ Definition get_char_value_and_length (escapes : list (Z * Z)) (s : text) : outco
            end
   end.
 
+(* FJLexer._decimal_value(digits):  try: return int(digits)  except ValueError: <lexing error>; return 0
+   CPython refuses to convert a decimal string of more than 4300 characters (leading zeros included);
+   the recorded lexing error makes the assembly fail after lexing, so the returned 0 is never used. *)
+Definition decimal_value (n : text) : outcome Z :=
+  if 4300 <? Z.of_nat (List.length n) then LibError LexLiteralTooLong else py_int dec_digit 10 n.
+
 (* FJLexer.NUMBER *)
 Definition number_value (escapes : list (Z * Z)) (n : text) : outcome Z :=
   match n with
@@ -372,7 +379,7 @@ Definition number_value (escapes : list (Z * Z)) (n : text) : outcome Z :=
       if c0 =? 39 then bind (get_char_value_and_length escapes (removelast (c1 :: r))) (fun p => Ok (fst p))
       else if (c1 =? 120) || (c1 =? 88) then py_int hex_digit 16 r
       else if (c1 =? 98) || (c1 =? 66) then py_int bin_digit 2 r
-      else py_int dec_digit 10 n
+      else decimal_value n
   | _ => py_int dec_digit 10 n
   end.
 
@@ -512,6 +519,7 @@ Definition expected_obs (w : Z) (r : stage * outcome Z) : obs :=
   match r with
   | (_, Ok z) => word_obs w z
   | (_, LibError ParseCantEvaluate) => ObsSyntaxError
+  | (_, LibError LexLiteralTooLong) => ObsSyntaxError
   | (AtParse, LibError _) => ObsLibError "FlipJumpExprException"
   | (AtSubst _, LibError _) => ObsLibError "FlipJumpExprException"
   | (AtFinal, LibError _) => ObsLibError "FlipJumpAssemblerException"
@@ -564,6 +572,7 @@ Definition check_ecase (c : ecase) : bool := obs_eqb (ecase_model c) (ec_obs c) 
 Definition diag_ecase (c : ecase) := (ecase_model c, ecase_spec c, obs_eqb (ecase_model c) (ec_obs c), spec_allows c).
 
 (* (iv) literal cases.  kind 0: NUMBER token text; 1: STRING token (items between the quotes);
+   3: NUMBER token text of a decimal literal longer than CPython converts (must be refused);
    2: a line with two string literals - lc_text is the text after the first opening quote up to the end of
       the line, lc_items the items of the first literal: the model predicts that the first token ends there *)
 Record lcase := mk_lcase {
@@ -582,15 +591,26 @@ Definition lcase_model (c : lcase) : obs :=
   let r := match lc_kind c with
            | O => number_value doc_char_escapes (lc_text c)
            | S O => string_value doc_char_escapes (lc_text c)
-           | _ => match lex_string_body doc_char_escapes (lc_text c) with
+           | S (S O) => match lex_string_body doc_char_escapes (lc_text c) with
                   | Some its => if (List.length its =? List.length (lc_items c))%nat
                                 then Ok (lc_intended c) else RawExn ValueError
                   | None => RawExn ValueError
                   end
+           | _ => number_value doc_char_escapes (lc_text c)
            end in
-  match r with Ok z => lcase_word c z | _ => ObsCatchAll "<decoder failed>" end.
+  match r with
+  | Ok z => lcase_word c z
+  | LibError LexLiteralTooLong => ObsSyntaxError
+  | _ => ObsCatchAll "<decoder failed>"
+  end.
 
-Definition lcase_spec (c : lcase) : bool := obs_eqb (lcase_word c (lc_intended c)) (lc_obs c).
+(* kind 3: a decimal literal of more than 4300 characters, outside the domain of the literal theorem:
+   it must be refused as a lexing error (never given another value) *)
+Definition lcase_spec (c : lcase) : bool :=
+  match lc_kind c with
+  | S (S (S O)) => obs_eqb ObsSyntaxError (lc_obs c)
+  | _ => obs_eqb (lcase_word c (lc_intended c)) (lc_obs c)
+  end.
 
 Definition lcase_wellformed (c : lcase) : bool :=
   match lc_kind c with
@@ -721,10 +741,21 @@ Definition modelled_sources : list (string * string) :=
         elif n[1] in 'bB':
             t.value = int(n, 2)
         else:
-            t.value = int(n)
+            t.value = self._decimal_value(n)
     else:
         t.value = int(t.value)
     return t");
+    ("fj_parser.FJLexer._decimal_value",
+"def _decimal_value(self, digits: str) -> int:
+    try:
+        return int(digits)
+    except ValueError:
+        global error_occurred, all_errors
+        error_occurred = True
+        error_string = f'Lexing Error in {get_position(self.lineno)}: a decimal literal of {len(digits)} digits is too long (write it in hex)'
+        all_errors += f'{error_string}\n'
+        print(error_string)
+        return 0");
     ("fj_parser.FJLexer.STRING",
 "def STRING(self, t: Token) -> Token:
     chars = []
